@@ -27,6 +27,9 @@ Decides these shapes; exactly-once and ordering over all nestings and timings ar
 R02e a macro invocation belongs to one caller (opstatic/macrocall.py): the continue branch of visit_CallMacroNode is reachable only for the
      Call macro node that started the invocation in progress; every other caller waits and then makes its own invocation - otherwise two
      walkers share the body's nodes and child_index and the lines of one invocation start out of order, twice, or not at all.
+R02f line numbers start at 0 and the "last non-whitespace line" of a scope defaults to a value below every line number (negative): the
+     trailing-whitespace analyzer marks a line when `line > last non-whitespace line` of all its ancestors, so with a default of 0 a
+     blank or comment line on line 0 of a method without instructions is never marked and is passed.
 """
 from __future__ import annotations
 
@@ -48,6 +51,7 @@ def _names(cls) -> list[str]:
 
 
 def run(ctx) -> None:
+    _r02f(ctx)
     prog, res = ctx.prog, ctx.res
     ctx.rule("R02a", "every node class / interpreter command / engine command has a handler")
     ctx.rule("R02b", "children visited in order, once; trailing whitespace never passed")
@@ -289,3 +293,33 @@ def run(ctx) -> None:
     ctx.rule("R02e", "a macro invocation in progress is continued only by the caller that started it")
     from ..macrocall import check as _macro_owner
     _macro_owner(ctx, "R02e")
+
+
+
+def _r02f(ctx) -> None:
+    import ast as _ast
+    prog = ctx.prog
+    ctx.rule("R02f", "the default of the last-non-whitespace line is below the first line number")
+    nwc = prog.cls("openpectus.lang.model.ast:NodeWithChildren")
+    init = nwc.methods["__init__"]
+    vals = [st.value for st in _ast.walk(init.node) if isinstance(st, (_ast.Assign, _ast.AnnAssign))
+            and "_last_non_ws_line" in norm(st.targets[0] if isinstance(st, _ast.Assign) else st.target) and st.value is not None]
+    if not vals:
+        raise AnchorError("NodeWithChildren.__init__: _last_non_ws_line default not found")
+    pm = prog.func("openpectus.lang.model.parser:PcodeParser.parse_method")
+    firsts = [st.value.value for st in _ast.walk(pm.node) if isinstance(st, _ast.Assign) and norm(st.targets[0]) == "line_no"
+              and isinstance(st.value, _ast.Constant)]
+    first = min(firsts) if firsts else 0
+    v = vals[0]
+    num = None
+    if isinstance(v, _ast.Constant) and isinstance(v.value, int):
+        num = v.value
+    elif isinstance(v, _ast.UnaryOp) and isinstance(v.op, _ast.USub) and isinstance(v.operand, _ast.Constant):
+        num = -v.operand.value
+    inst = f"NodeWithChildren._last_non_ws_line defaults below the first line number ({first})"
+    if num is not None and num < first:
+        ctx.ok("R02f", inst)
+    else:
+        ctx.fail("R02f", init, v, inst, f"the default is {norm(v)} and the analyzer marks a whitespace line only when its line number is greater: in a "
+                 "method that consists of blank/comment lines only, line 0 is passed (started, completed; for a one-line method the "
+                 "method ends) - a line appended afterwards would not run")
